@@ -1,7 +1,7 @@
 (* Property C10 — accepted DIDs and DID URLs are canonical, decomposable, free of stray parts.
    Pinned statements only.  Byte strings are lists of N; "did:" = [100;105;100;58], ':' = 58. *)
 From Coq Require Import List NArith Bool.
-From IdV Require Import Lib.Outcome Did.DidParse Proofs.DidProofs Proofs.DidUrlProofs Proofs.DidCompleteProofs.
+From IdV Require Import Lib.Outcome Did.DidParse Proofs.DidProofs Proofs.DidUrlProofs Proofs.DidCompleteProofs Proofs.DidTotalProofs Proofs.DidSplitProofs.
 Import ListNotations.
 Open Scope N_scope.
 
@@ -19,23 +19,25 @@ Theorem C10_did_has_no_url_parts : forall s m i, core_did_parse s = Ok (m, i) ->
   existsb stop_mid m = false /\ existsb stop_mid i = false.
 Proof. exact core_did_no_url_parts. Qed.
 (* DID URL, for EVERY byte string: all components of an accepted value are well-formed *)
-Theorem C10_url_components_wf : forall s u, did_url_parse s = Ok u ->
+Theorem C10_url_components_wf : forall s u, did_url_split_parse s = Ok u ->
   u_method u <> [] /\ valid_method_name (u_method u) = true /\ valid_method_id (u_mid u) = true
   /\ (forall p, u_path u = Some p -> exists t, p = 47 :: t /\ valid_seg char_path p = true)
   /\ (forall q, u_query u = Some q -> exists t, q = 63 :: t /\ t <> [] /\ valid_seg char_query t = true)
   /\ (forall f, u_frag u = Some f -> exists t, f = 35 :: t /\ t <> [] /\ valid_seg char_query t = true).
-Proof. exact did_url_components_wf. Qed.
-(* DID URL, for EVERY byte string without a percent sign (i.e. outside the known class K_pct of the third-party
-   parser): the string form of an accepted value is the input VERBATIM, the DID part is "did:" method ":" id and
+Proof. intros s u H. destruct (did_url_split_sound s u H) as [_ [_ [Nm [_ [Vm [Vi [Wp [Wq Wf]]]]]]]]. repeat split; auto.
+  intros q Hq. destruct (Wq q Hq) as [t [A [B [C _]]]]. exists t. auto. Qed.
+(* DID URL, for EVERY byte string (since fix 6c07746 percent signs included: DIDUrl::parse no longer asks the third-party parser
+   about the URL part): the string form of an accepted value is the input VERBATIM, the DID part is "did:" method ":" id and
    the components re-concatenate to the input *)
-Theorem C10_url_verbatim_concat : forall s u, K_pct s = false -> did_url_parse s = Ok u ->
+Theorem C10_url_verbatim_concat : forall s u, did_url_split_parse s = Ok u ->
   did_url_to_string u = s
   /\ u_did u = [100; 105; 100; 58] ++ u_method u ++ [58] ++ u_mid u
   /\ s = [100; 105; 100; 58] ++ u_method u ++ [58] ++ u_mid u ++ oapp (u_path u) ++ oapp (u_query u) ++ oapp (u_frag u).
-Proof. intros s u K. apply did_url_verbatim. unfold no_pct. unfold K_pct in K. rewrite K. reflexivity. Qed.
+Proof. intros s u H. destruct (did_url_split_sound s u H) as [Es [Ed _]]. split; [exact Es|]. split; [exact Ed|].
+  rewrite <- Es at 1. unfold did_url_to_string. rewrite Ed. rewrite <- !app_assoc. reflexivity. Qed.
 (* no surrounding blanks or control characters are accepted (for EVERY byte string) *)
-Theorem C10_url_trimmed : forall s u, did_url_parse s = Ok u -> trim s = s.
-Proof. exact did_url_trimmed. Qed.
+Theorem C10_url_trimmed : forall s u, did_url_split_parse s = Ok u -> trim s = s.
+Proof. exact did_url_split_trimmed. Qed.
 (* the tree before fix 358acae is refuted: "  did:a:b?q" was accepted and printed differently *)
 Theorem C10_url_unguarded_refuted :
   exists s u, no_pct s = true /\ did_url_parse_unguarded s = Ok u /\ did_url_to_string u <> s.
@@ -63,33 +65,33 @@ Proof. exact set_fragment_sound. Qed.
 (* COMPLETENESS (percent-free): the text "did:" m ":" i p ["?" q] ["#" f] with every part in its W3C character class
    (wf_parts: m, i non-empty; p empty or starting '/'; q, f non-empty) IS accepted and decomposes into exactly those parts *)
 Theorem C10_url_complete : forall m i p oq of, wf_parts m i p oq of ->
-  did_url_parse (url_text m i p oq of)
+  did_url_split_parse (url_text m i p oq of)
   = Ok {| u_did := [100; 105; 100; 58] ++ m ++ [58] ++ i; u_method := m; u_mid := i;
           u_path := opt_nonempty p; u_query := option_map (cons 63) oq; u_frag := option_map (cons 35) of |}.
-Proof. exact did_url_complete. Qed.
+Proof. exact did_url_split_complete. Qed.
 (* so, outside K_pct, the parser accepts EXACTLY the well-formed texts ... *)
 Theorem C10_url_accept_iff : forall s, no_pct s = true ->
-  ((exists u, did_url_parse s = Ok u) <-> exists m i p oq of, s = url_text m i p oq of /\ wf_parts m i p oq of).
-Proof. exact did_url_accept_iff. Qed.
+  ((exists u, did_url_split_parse s = Ok u) <-> exists m i p oq of, s = url_text m i p oq of /\ wf_parts m i p oq of).
+Proof. exact split_accept_iff. Qed.
 Theorem C10_did_accept_iff : forall s, no_pct s = true ->
   ((exists mi, core_did_parse s = Ok mi) <->
    exists m i, s = [100; 105; 100; 58] ++ m ++ [58] ++ i /\ m <> [] /\ forallb char_method m = true /\ i <> [] /\ forallb char_method_id i = true).
 Proof. exact core_did_accept_iff. Qed.
 (* ... every accepted value re-parses from its string form to ITSELF ... *)
-Theorem C10_url_reparse : forall s u, no_pct s = true -> did_url_parse s = Ok u -> did_url_parse (did_url_to_string u) = Ok u.
-Proof. exact did_url_reparse. Qed.
-Theorem C10_url_accepted_wf : forall s u, no_pct s = true -> did_url_parse s = Ok u -> wf_url u.
-Proof. exact did_url_parse_wf. Qed.
+Theorem C10_url_reparse : forall s u, did_url_split_parse s = Ok u -> did_url_split_parse (did_url_to_string u) = Ok u.
+Proof. exact did_url_split_reparse. Qed.
+Theorem C10_url_accepted_wf : forall s u, no_pct s = true -> did_url_split_parse s = Ok u -> wf_url u.
+Proof. exact split_parse_wf. Qed.
 (* ... and a successful setter on such a value yields a value that re-parses to itself (a failing setter assigns nothing) *)
 Theorem C10_set_path_reparses : forall u v r, wf_url u -> set_path v = Ok r -> no_pct (oapp r) = true ->
-  did_url_parse (did_url_to_string (with_path u r)) = Ok (with_path u r).
-Proof. exact set_path_reparses. Qed.
+  did_url_split_parse (did_url_to_string (with_path u r)) = Ok (with_path u r).
+Proof. exact split_set_path_reparses. Qed.
 Theorem C10_set_query_reparses : forall u v r, wf_url u -> set_query v = Ok r -> no_pct (oapp r) = true ->
-  did_url_parse (did_url_to_string (with_query u r)) = Ok (with_query u r).
-Proof. exact set_query_reparses. Qed.
+  did_url_split_parse (did_url_to_string (with_query u r)) = Ok (with_query u r).
+Proof. exact split_set_query_reparses. Qed.
 Theorem C10_set_fragment_reparses : forall u v r, wf_url u -> set_fragment v = Ok r -> no_pct (oapp r) = true ->
-  did_url_parse (did_url_to_string (with_frag u r)) = Ok (with_frag u r).
-Proof. exact set_fragment_reparses. Qed.
+  did_url_split_parse (did_url_to_string (with_frag u r)) = Ok (with_frag u r).
+Proof. exact split_set_fragment_reparses. Qed.
 (* the route to a CoreDID that skips CoreDID::parse's guards (TryFrom<BaseDIDUrl>, which is also what serde uses): outside K_pct it
    accepts ONLY what CoreDID::parse accepts, with the same components - so every route yields the verbatim, decomposable value *)
 Theorem C10_did_unguarded_route_sound : forall s m i, no_pct s = true -> core_did_from_base s = Ok (m, i) -> core_did_parse s = Ok (m, i).
@@ -100,8 +102,8 @@ Proof. exact core_did_from_base_sound. Qed.
    compares the string form of every joined value, dot-segment removal included.) *)
 Theorem C10_join_sound : forall u seg j, wf_url u -> did_url_join u seg = Ok j ->
   u_did j = u_did u /\ u_method j = u_method u /\ u_mid j = u_mid u
-  /\ (no_pct (did_url_to_string j) = true -> wf_url j /\ did_url_parse (did_url_to_string j) = Ok j).
-Proof. exact join_sound. Qed.
+  /\ (no_pct (did_url_to_string j) = true -> wf_url j /\ did_url_split_parse (did_url_to_string j) = Ok j).
+Proof. exact split_join_sound. Qed.
 Theorem C10_join_rejects_non_relative : forall u seg,
   (match seg with c :: _ => negb ((c =? 47) || (c =? 63) || (c =? 35)) | [] => true end) = true -> did_url_join u seg = Err EPath.
 Proof. exact join_rejects_non_relative. Qed.
@@ -119,15 +121,19 @@ Theorem C10_eq_same_hash : forall u v, url_eqb u v = true -> url_hash_input u = 
 Proof. exact url_eq_same_hash_input. Qed.
 Theorem C10_eq_iff_same_string : forall u v, wf_url u -> wf_url v -> (url_eqb u v = true <-> did_url_to_string u = did_url_to_string v).
 Proof. exact url_eq_iff_string. Qed.
-(* outside K_pct DIDUrl::parse is total: it never panics *)
-Theorem C10_url_total_pct_free : forall s, no_pct s = true -> did_url_parse s <> Panic.
-Proof. exact did_url_total_pct_free. Qed.
+(* DIDUrl::parse is total on EVERY byte string: it never panics (the pinned tree did: C10_url_pct_panics_refuted below) *)
+Theorem C10_url_total : forall s, did_url_split_parse s <> Panic.
+Proof. exact did_url_split_total. Qed.
+(* on percent-free strings the parser agrees with the route through the third-party parser that the pinned tree took *)
+Theorem C10_url_agrees_with_third_party_route : forall s, no_pct s = true -> forall u, did_url_split_parse s = Ok u <-> did_url_parse s = Ok u.
+Proof. exact split_agrees_with_third_party. Qed.
 (* the hypotheses are satisfiable: did:ab:c:d/p?q=1#f *)
 Example C10_wf_example : wf_parts [97; 98] [99; 58; 100] [47; 112] (Some [113; 61; 49]) (Some [102]).
 Proof. constructor; [split; [discriminate|reflexivity] | split; [discriminate|reflexivity] | right; eexists; split; reflexivity
   | intros q H; inversion H; repeat split; discriminate | intros f H; inversion H; split; [discriminate|reflexivity]]. Qed.
 
-(* known finding K_pct (third-party did_url_parser 0.3.0): refutation witnesses kept in the development *)
+(* the third-party parser's percent handling (did_url_parser 0.3.0; class K_pct): refutation witnesses. `did_url_parse` is the route through that
+   parser which DIDUrl::parse took on the pinned tree (repaired by 6c07746; `join` still re-parses the receiver's own text that way) *)
 Theorem C10_pct_swallow_refuted :
   tp_loop stop_mid char_method_id [37; 52; 49; 35; 120] = Some 5%nat
   /\ tp_loop stop_mid char_method_id [37; 52; 49] = Some 4%nat.
@@ -158,7 +164,8 @@ Print Assumptions C10_url_accepted_wf.
 Print Assumptions C10_set_path_reparses.
 Print Assumptions C10_set_query_reparses.
 Print Assumptions C10_set_fragment_reparses.
-Print Assumptions C10_url_total_pct_free.
+Print Assumptions C10_url_total.
+Print Assumptions C10_url_agrees_with_third_party_route.
 Print Assumptions C10_did_unguarded_route_sound.
 Print Assumptions C10_eq_iff_ord_equal.
 Print Assumptions C10_ord_antisymmetric.
